@@ -45,6 +45,12 @@ def explore(ctx):
                     base = {"op": "f_blind", "suite": suite, "seed": rng.randrange(1 << 30), "labels": labels, "claims": mk_claims(rng, n),
                             "blindable": list(hid), "hidden": list(hid), "mode": "api"}
                     api.append(dict(base, expect="ok"))
+                    # every hidden claim encodes to the scalar zero (scalar 0, the smallest number): the commitment of a
+                    # request without blinding factor is then the identity
+                    zc = [dict(c) for c in base["claims"]]
+                    for k2, h in enumerate(hid):
+                        zc[h] = {"t": "s", "hex": "%064x" % 0} if k2 % 2 == 0 else {"t": "n", "v": str(-2 ** 63)}
+                    api.append(dict(base, claims=zc, expect="ok", seed=rng.randrange(1 << 30), note="hidden claims encode to zero"))
                     if len(hid) >= 2:
                         # the schema lists its blindable labels in another order than the claims have
                         api.append(dict(base, blindable=list(reversed(hid)), expect="ok", seed=rng.randrange(1 << 30)))
